@@ -1,3 +1,4 @@
 pub mod bfs;
 pub mod models;
+pub mod proto;
 pub mod rt;
